@@ -31,7 +31,7 @@ class ModelCheck(PipelineCheck):
     max_nest = 2
     wrap_prob = 0.6
     end_kinds = ('complete',) * 9 + ('error', 'dispose')
-    values = ('small', 'small', 'inc', 'runs', 'dups')
+    values = ('small', 'small', 'inc', 'runs', 'dups', 'huge')
 
     def gen_program(self, rng, tier):
         g = Gen(rng, weights=self.weights, max_nest=self.max_nest, small=(tier == 'quick'))
